@@ -2,3 +2,5 @@
 import GoNeat.Props.C06
 import GoNeat.Props.C07
 import GoNeat.Props.C07Exact
+import GoNeat.Props.C04
+import GoNeat.Props.C05
